@@ -53,6 +53,26 @@ def _order(pc, syms):
     return out
 
 
+def _replay_ellipsoid_area(model):
+    """real Ellipsoid.surface_area against Carlson's symmetric form S = 4 pi R_G(a^2 b^2, a^2 c^2, b^2 c^2) (independent of
+    the Legendre formulas) on a grid of axis triples in every order, incl. equal axes, needles and discs"""
+    import itertools
+    import math
+    from scipy.special import elliprg
+    from .common import real_coxeter
+    cox = real_coxeter()
+    vals = [1e-3, 5e-3, 0.02, 0.5, 1.0, 1.0 + 1e-9, 2.5, 40.0, 1e3]
+    for a_, b_, c_ in itertools.product(vals, repeat=3):
+        want = 4 * math.pi * float(elliprg((a_ * b_)**2, (a_ * c_)**2, (b_ * c_)**2))
+        try:
+            got = float(cox.shapes.Ellipsoid(a_, b_, c_, (1.5, -2.0, 0.25)).surface_area)
+        except Exception as e:  # noqa: BLE001
+            return True, {"class": "Ellipsoid", "axes": [a_, b_, c_], "raised": f"{type(e).__name__}: {e}"}
+        if not math.isfinite(got) or abs(got - want) > 1e-7 * want:
+            return True, {"class": "Ellipsoid", "axes": [a_, b_, c_], "surface_area": got, "carlson_RG_value": want}
+    return False, {"searched": "9^3 axis triples"}
+
+
 def run(chk):
     ld = chk.loader()
     shapes = ld.load("coxeter.shapes")
@@ -182,15 +202,18 @@ def run(chk):
         is_sphere = z3back.prove(p.pc, sp.Eq(x1, x3), timeout_ms=5000).status == "unsat"
         if is_sphere:
             spec = 4 * sp.pi * x1**2
-            chk.prove(f"Ellipsoid.surface_area:sphere_limit[{path_tag(p)}]", fk_s, p.pc, sp.Eq(ex(p.value), spec))
+            chk.prove(f"Ellipsoid.surface_area:sphere_limit[{path_tag(p)}]", fk_s, p.pc, sp.Eq(ex(p.value), spec),
+                      replay=_replay_ellipsoid_area)
         else:
-            chk.prove(f"Ellipsoid.surface_area:branch_is_nonsphere[{path_tag(p)}]", fk_s, p.pc, sp.Gt(x1, x3))
+            chk.prove(f"Ellipsoid.surface_area:branch_is_nonsphere[{path_tag(p)}]", fk_s, p.pc, sp.Gt(x1, x3),
+                      replay=_replay_ellipsoid_area)
             cosphi = x3 / x1
             sin2 = 1 - cosphi**2
             phi = sp.acos(cosphi)
             m = x1**2 * (x2**2 - x3**2) / (x2**2 * (x1**2 - x3**2))
             spec = 2 * sp.pi * (x3**2 + x1 * x2 * (EI(phi, m) * sin2 + KI(phi, m) * cosphi**2) / sp.sqrt(sin2))
-            chk.prove_eq(f"Ellipsoid.surface_area:legendre[{path_tag(p)}]", fk_s, p.pc, ex(p.value), spec)
+            chk.prove_eq(f"Ellipsoid.surface_area:legendre[{path_tag(p)}]", fk_s, p.pc, ex(p.value), spec,
+                         replay=_replay_ellipsoid_area)
     chk.notes.append(f"Ellipsoid.surface_area: {len(sa_paths)} paths covering axis orders {sorted(str(o) for o in seen_orders)}")
 
     # ------------------------------------------------------------------ Shape3D.iq on the ellipsoid is the quotient
